@@ -72,7 +72,17 @@ def main():
             crate_dir = loc.split("/")[0]
             pkg = {"core": "retrofire-core", "geom": "retrofire-geom"}.get(crate_dir, "retrofire-core")
             test_name = os.path.splitext(os.path.basename(loc))[0]
+            if test_name != "demo":
+                loc = os.path.join(os.path.dirname(loc), "demo.rs")
+                test_name = "demo"
             feats = ["--features", "std"]
+            dca = meta.get("demo_cargo_args")
+            if dca:
+                toks = dca.split() if isinstance(dca, str) else list(dca)
+                if "--no-default-features" in toks:
+                    feats = ["--no-default-features"]
+                if "--features" in toks:
+                    feats = feats + ["--features", toks[toks.index("--features") + 1]] if "--no-default-features" in toks else ["--features", toks[toks.index("--features") + 1]]
             dst = os.path.join(wt, loc)
             os.makedirs(os.path.dirname(dst), exist_ok=True)
             # (1) unchanged: demo passes
